@@ -620,7 +620,8 @@ def vec_identity_oracle(c, out, ps):
 # model requests / comparison
 # ----------------------------------------------------------------------------------------------
 def is_herm(M):
-    return bool(np.allclose(M, M.conj().T)) if np.iscomplexobj(M) else bool(np.allclose(M, M.T))
+    at = 1e-12 * float(np.abs(M).max()) if np.size(M) else 0.0     # relative to the matrix (any units)
+    return bool(np.allclose(M, M.conj().T, rtol=0.0, atol=at)) if np.iscomplexobj(M) else bool(np.allclose(M, M.T, rtol=0.0, atol=at))
 
 
 def reqs_for(c, out):
